@@ -8,11 +8,13 @@ mod checks;
 mod gen;
 mod minimise;
 mod oracle;
+mod prmcheck;
 mod prng;
 mod runner;
 mod sim;
 mod spaces;
 mod spec;
+mod treechecks;
 mod world;
 
 use std::os::fd::FromRawFd;
@@ -28,6 +30,10 @@ fn registry(id: &str) -> Option<Arc<dyn Check>> {
         }
         "C07" => Arc::new(checks::C07),
         "C08" => Arc::new(checks::C08),
+        "C18" => Arc::new(prmcheck::C18),
+        "C15" => Arc::new(treechecks::TreeProp { id: "C15" }),
+        "C16" => Arc::new(treechecks::TreeProp { id: "C16" }),
+        "C17" => Arc::new(treechecks::TreeProp { id: "C17" }),
         _ => return None,
     })
 }
